@@ -728,10 +728,12 @@ EIGEN_CATALOGUE = [
 def gen_eigen(rng, n):
     import numpy as np
     out = []
-    kinds = ['scaled', 'scaled', 'perturbed', 'other', 'zero', 'scaled', 'perturbed', 'shape']
+    kinds = ['scaled', 'rescaled', 'perturbed', 'other', 'zero', 'rescaled', 'perturbed', 'shape', 'scaled', 'rescaled']
     for i in range(n):
         exact = rng.random() < 0.4
         kind = kinds[i % len(kinds)]
+        if kind == 'rescaled':
+            exact = True
         pol = rng.choice(POLICIES)
         if exact:
             M, pairs = rng.choice(EIGEN_CATALOGUE)
@@ -754,9 +756,22 @@ def gen_eigen(rng, n):
             tolerance = rtol(rng)
         dim = len(M)
         expect = {'kind': 'eigen'}
+        if kind == 'rescaled':
+            # the defining transformation over many magnitudes: real, negative and complex factors from 1e-9 to 1e9
+            # (powers of 2 keep the arithmetic exact, powers of 10 do not), matrices of small and large norm
+            mag = rng.choice([10.0 ** rng.randint(-9, 9), 2.0 ** rng.randint(-30, 30)])
+            c = mag * rng.choice([1, -1, 1j, -1j, complex(1, 1), complex(0.6, 0.8), complex(-2, 1)])
+            sc = rng.choice([1, 1, 2.0 ** -20, 2.0 ** 20, 1e-6, 1e6])
+            M = [[z * sc for z in row] for row in M]
+            lam = lam * sc
+            tolerance = rng.choice(['0.01%', '0.01%', '1%', '5%', 1e-6, 1e-3, 0.01, 0.5, 0])
+            dyadic = math.frexp(mag)[0] == 0.5 and sc in (1, 2.0 ** -20, 2.0 ** 20) and all(
+                float(x).is_integer() for x in (c.real / mag, c.imag / mag))
+            if tolerance == 0 and not dyadic:
+                tolerance = 1e-6         # zero tolerance only where the floating-point arithmetic is exact
         if not isinstance(tolerance, str) and abs(c) * math.sqrt(sum(abs(z) ** 2 for z in v0)) <= 16 * tolerance:
             c = c * 32
-        if kind == 'scaled':
+        if kind in ('scaled', 'rescaled'):
             st, expect = vec_str([c * z for z in v0]), {'kind': 'member'}
         elif kind == 'perturbed':
             u = rvec(rng, dim, True, ints=exact)
@@ -772,7 +787,7 @@ def gen_eigen(rng, n):
         else:
             st, expect = vec_str([c * z for z in v0]), {'kind': 'member'}
         out.append({'grader': 'Matrix', 'cmp': {'name': 'eigen'}, 'params': [mat_str(M), cnum(lam)], 'tolerance': tolerance,
-                    'student': st, 'expect': expect, 'exact': exact and kind != 'perturbed', 'policy': pol,
+                    'student': st, 'expect': expect, 'exact': exact and kind not in ('perturbed', 'rescaled'), 'policy': pol,
                     'samples': rng.choice([1, 2])})
     return out
 
@@ -797,7 +812,7 @@ def span_distance(ws, v):
 
 def gen_span(rng, n):
     out = []
-    kinds = ['member', 'nonmember', 'member', 'nonmember', 'zero', 'shape', 'dependent', 'nonmember', 'square', 'tiny']
+    kinds = ['member', 'nonmember', 'rescaled', 'nonmember', 'zero', 'shape', 'dependent', 'nonmember', 'square', 'tiny', 'member', 'rescaled']
     for i in range(n):
         kind = kinds[i % len(kinds)]
         dim = rng.choice([2, 3, 3, 4])
@@ -828,6 +843,11 @@ def gen_span(rng, n):
         member = [sum(c * w[j] for c, w in zip(cs, ws)) for j in range(dim)]
         if sum(abs(z) ** 2 for z in member) < 0.25:
             member = [z + w for z, w in zip(member, ws[0])]
+        if kind == 'rescaled':
+            mag = rng.choice([10.0 ** rng.randint(-9, 9), 2.0 ** rng.randint(-30, 30)])
+            cfac = mag * rng.choice([1, -1, 1j, complex(1, 1), complex(0.6, 0.8)])
+            member = [cfac * z for z in member]
+            tolerance = rng.choice(['0.01%', '0.01%', '1%', 1e-6, 1e-3, 0.01])
         mnorm = math.sqrt(sum(abs(z) ** 2 for z in member))
         expect = {'kind': 'member'}
         st = vec_str(member)
@@ -1407,6 +1427,26 @@ def oracle(spec, run):
     if kind == 'member':
         if accepted(run, ag):
             return None
+        if name in ('eigen', 'span') and run.calls:
+            # member by construction, but only claimed when an independent floating-point evaluation of the defining
+            # equation is itself far inside the tolerance (huge rescalings under an absolute tolerance are rounding noise)
+            try:
+                c0 = run.calls[-1]
+                v = np.array(c0['student'], dtype=complex)
+                if name == 'eigen':
+                    Mx, lam = np.array(c0['params'][0], dtype=complex), complex(c0['params'][1])
+                    res_ = float(np.linalg.norm(Mx.dot(v) - lam * v))
+                    tol_ = tol_value(tolerance, float(np.linalg.norm(Mx.dot(v))))
+                    if tol_ <= 1e-12 * float(np.linalg.norm(Mx)) * float(np.linalg.norm(v)):
+                        return None          # effective tolerance below the rounding noise of M v (e.g. eigenvalue 0 with a percentage)
+                else:
+                    wsx = [np.array(p_, dtype=complex) for p_ in c0['params']]
+                    res_ = 0.0 if params_dependent(wsx) or len(wsx) >= len(v) else span_distance(wsx, v)
+                    tol_ = tol_value(tolerance, float(np.linalg.norm(v)))
+                if res_ > tol_ / 1000:
+                    return None
+            except Exception:
+                pass
         if name in ('eigen', 'span', 'phase') and not isinstance(tolerance, str) and run.calls:
             # a vector whose norm is within the absolute tolerance of zero counts as zero: no claim near that threshold
             try:
@@ -1624,6 +1664,24 @@ def lstsq_rank_unreliable(run):
     return False
 
 
+def zero_effective_tolerance(spec, run):
+    """eigenvector_comparer with a percentage tolerance takes the percentage of |M v|: for an eigenvalue 0 that is zero up to
+    rounding, so the verdict is decided by the rounding noise of M v itself (no tolerance scaling can guard it).  Inexact
+    inputs in that regime are set aside and counted; exact-stream cases (integers, dyadics) stay in."""
+    import numpy as np
+    if spec['cmp']['name'] != 'eigen' or spec.get('exact') or not isinstance(spec['tolerance'], str) or not run.calls:
+        return False
+    try:
+        c0 = run.calls[-1]
+        v = np.array(c0['student'], dtype=complex)
+        Mx = np.array(c0['params'][0], dtype=complex)
+        if v.shape != (Mx.shape[0],):
+            return False
+        return float(np.linalg.norm(Mx.dot(v))) <= 1e-9 * float(np.linalg.norm(Mx)) * float(np.linalg.norm(v))
+    except Exception:
+        return False
+
+
 def spec_key(spec):
     return '%s/%s/%s/tol=%s/%s' % (spec['grader'], json.dumps(spec['cmp'], sort_keys=True), '|'.join(spec['params']),
                                    spec['tolerance'], spec['student'])
@@ -1676,6 +1734,10 @@ def run(ctx):
         dist['outcomes'][oc] = dist['outcomes'].get(oc, 0) + 1
         if name in ('linear', 'span', 'phase') and lstsq_rank_unreliable(r):
             dist['lstsq_rank_unreliable'] = dist.get('lstsq_rank_unreliable', 0) + 1
+            continue
+        if zero_effective_tolerance(spec, r):
+            dist['zero_effective_tolerance'] = dist.get('zero_effective_tolerance', 0) + 1
+            res.boundary += 1
             continue
         try:
             verdict = oracle(spec, r)
@@ -1750,7 +1812,7 @@ def run(ctx):
     shard = max(40, (len(terms) + 15) // 16)
     n, failing, boundary, errors = eval_cases('c16', terms, shard)
     res.programs = n
-    res.boundary = len(boundary)
+    res.boundary += len(boundary)
     res.corr_errors += errors
     for i in failing:
         sp = metas[i]
